@@ -662,6 +662,56 @@ def rule_r11(prog, res) -> None:
         raise AnalysisError(f"C15.R11: only {n} calls of cosmology-taking functions found, minimum 10")
 
 
+def rule_r12(prog, res) -> None:
+    """conversions never mutate the configuration: no in-place update (`x /= …`) of an array that is (a view of) an
+    argument or of stored state in the configuration / cosmology / binning modules — the scale limits handed to a
+    conversion are the configuration's own arrays, so an in-place division changes the configuration (and the
+    caller's input) a little more with every call"""
+    from .c03 import inplace_rule
+
+    inplace_rule(prog, res, "C15.R12", ("yaw.cosmology", "yaw.config", "yaw.binning", "yaw.options"), "the configuration's stored scale limits / edges change with every conversion: later bins, to_dict, == and modify use other parameters than those given")
+
+
+def rule_r13(prog, res) -> None:
+    """"not given" is decided by the sentinel, never by truthiness: a parameter whose default is the NotSet sentinel
+    must be compared with the sentinel (`p is NotSet`); `p or self.p`, `if p:` and `not p` also treat the valid values
+    0, 0.0, False and empty sequences as "not given", so modify(zmin=0) silently keeps the old value (the sentinel is
+    falsy, which makes the shortcut look right). Every read of such a parameter in a boolean context is flagged."""
+    n = 0
+    for fi in prog.funcs:
+        a = fi.node.args
+        pairs = list(zip(a.args[len(a.args) - len(a.defaults) :], a.defaults)) + [(p_, d) for p_, d in zip(a.kwonlyargs, a.kw_defaults) if d is not None]
+        sent = {p_.arg for p_, d in pairs if isinstance(d, (ast.Name, ast.Attribute)) and (dotted(d) or "").split(".")[-1] == "NotSet"}
+        if not sent:
+            continue
+        n += 1
+        res.touch(fi)
+        bad = None
+        for x in walk_no_nested(fi.node):
+            tests = []
+            if isinstance(x, ast.BoolOp):
+                tests += list(x.values[:-1]) if isinstance(x.op, ast.Or) else list(x.values)
+            if isinstance(x, (ast.If, ast.IfExp, ast.While)):
+                tests.append(x.test)
+            if isinstance(x, ast.UnaryOp) and isinstance(x.op, ast.Not):
+                tests.append(x.operand)
+            for t in tests:
+                if isinstance(t, ast.Name) and t.id in sent:
+                    bad = bad or (x, t.id)
+        if bad:
+            res.violation(
+                "C15.R13",
+                fi,
+                bad[0],
+                f"`{unparse(bad[0])[:60]}` decides by truthiness whether `{bad[1]}` was given (its default is the NotSet sentinel): the valid values 0 / 0.0 / False are treated as not given and silently replaced",
+                key_extra=f"sentinel-truthiness-{fi.qualname}-{bad[1]}",
+            )
+        else:
+            res.ok("C15.R13", res.site(fi), f"sentinel parameters {sorted(sent)} are never read in a boolean context", nontrivial=False)
+    if n < 3:
+        raise AnalysisError(f"C15.R13: only {n} functions with NotSet-defaulted parameters found, minimum 3")
+
+
 RULES = [
     ("C15.R1", rule_r1, QUICK),
     ("C15.R2", rule_r2, QUICK),
@@ -674,4 +724,6 @@ RULES = [
     ("C15.R9", rule_r9, QUICK),
     ("C15.R10", rule_r10, QUICK),
     ("C15.R11", rule_r11, QUICK),
+    ("C15.R12", rule_r12, QUICK),
+    ("C15.R13", rule_r13, QUICK),
 ]
